@@ -3,13 +3,17 @@ usage: seedconfirm.py <id> <n> [--checks C04,C12]   ->  prints a JSON summary; c
 import json, os, shutil, subprocess, sys, xml.etree.ElementTree as ET
 
 pid, n = sys.argv[1], sys.argv[2]
+# SEED_REPO / SEED_VERIF: run the checks from a copy of /verif against a scratch worktree of /repo (so that /repo and /verif stay free);
+# default: the prescribed way - apply to /repo itself, run /verif's checks, undo
+SREPO = os.environ.get("SEED_REPO", "/repo")
+SVERIF = os.environ.get("SEED_VERIF", "/verif")
 checks = [pid]
 if "--checks" in sys.argv:
     checks = sys.argv[sys.argv.index("--checks") + 1].split(",")
 base = sys.argv[sys.argv.index("--src") + 1] if "--src" in sys.argv else "/tmp/seedout"
 offset = int(sys.argv[sys.argv.index("--offset") + 1]) if "--offset" in sys.argv else 0
 src = f"{base}/{pid}/{n}"
-wt = f"/tmp/confirm_wt_{pid}_{n}"
+wt = f"/var/tmp/confirm_wt_{pid}_{n}"
 label = f"{pid}-{int(n) + offset}"
 out = {"id": label, "property": pid}
 
@@ -47,19 +51,19 @@ try:
 finally:
     sh(f"git -C /repo worktree remove --force {wt}")
 if out.get("confirmed") and "--no-checks" not in sys.argv:
-    st = sh("git -C /repo status --porcelain")
-    assert st.stdout.strip() == "", "/repo is not clean"
-    sh(f"git -C /repo apply {src}/patch.diff")
+    st = sh(f"git -C {SREPO} status --porcelain")
+    assert st.stdout.strip() == "", f"{SREPO} is not clean"
+    sh(f"git -C {SREPO} apply {src}/patch.diff")
     try:
         out["checks"] = {}
         for c in checks:
-            r = sh(f"cd /verif && VERIF_SEED=1 VERIF_TIER=quick ./check {c}", timeout=3000)
+            r = sh(f"cd {SVERIF} && XDIS_REPO={SREPO} VERIF_SEED=1 VERIF_TIER=quick ./check {c}", timeout=3000)
             lines = [l for l in r.stdout.splitlines() if l.startswith(("VIOLATION", "OK property", "MACHINERY", "KNOWN-FINDING"))]
             out["checks"][c] = {"exit": r.returncode, "lines": [l[:200] for l in lines[:4]], "n_violation_lines": sum(l.startswith("VIOLATION") for l in lines),
                                 "no_failing_input": any("no-failing-input-found" in l for l in lines)}
     finally:
-        sh("git -C /repo checkout -- .")
-        sh("rm -f /verif/replay/*.json")
+        sh(f"git -C {SREPO} checkout -- .")
+        sh(f"rm -f {SVERIF}/replay/*.json")
     out["caught_by"] = [c for c, v in out["checks"].items() if v["exit"] == 1]
 if out.get("confirmed"):
     dst = f"/verif/seeded/{label}"
